@@ -31,6 +31,11 @@ def configs(tier):
         for kind in ("mixin", "light"):
             out.append(dict(kind=kind, n=3, cfg=dict(CFG, extras=False), hidden=False, d=0, persistent=P4, assertions=a,
                             judge="c01", reclimit=120, name="%s N=3 persistent bracket-hook vetoes (reclimit 120) A=%d" % (kind, a)))
+        for kind in (("mixin", "light")[a:a + 1] if tier == "quick" else ("mixin", "light")):
+            out.append(dict(kind=kind, n=3, cfg=dict(CFG, extras=False, read=False), hidden=False, d=0, assertions=a, judge="c01",
+                            name="%s N=3 two-step: aborted call, then any call A=%d" % (kind, a),
+                            two_step=dict(d1=1, persistent1=P2, d2=0 if tier == "quick" else 1, persistent2=() if tier == "quick" else P2,
+                                          L=2 if tier == "quick" else 3)))
         # the class of the exception a hook raises is part of the alphabet (TreeError / LoopError subclasses)
         for kind, fl in (("mixin", "tree"), ("light", "loop")) if tier == "quick" else [(k, f) for k in ("mixin", "light", "node") for f in ("tree", "loop", "value")]:
             out.append(dict(kind=kind, n=3, cfg=dict(CFG, extras=False), hidden=False, d=1 if tier == "quick" else 2, persistent=P2,
